@@ -10,20 +10,45 @@ use ctap_types::ctap2::{self, Authenticator as A2};
 use ctap_types::Rpc;
 use std::sync::atomic::Ordering;
 
-const ERRORS2: [ctap2::Error; 12] = [
-    ctap2::Error::InvalidCommand,
-    ctap2::Error::InvalidParameter,
-    ctap2::Error::InvalidLength,
-    ctap2::Error::MissingParameter,
-    ctap2::Error::CredentialExcluded,
-    ctap2::Error::NoCredentials,
-    ctap2::Error::PinInvalid,
-    ctap2::Error::PinAuthInvalid,
-    ctap2::Error::OperationDenied,
-    ctap2::Error::KeyStoreFull,
-    ctap2::Error::Other,
-    ctap2::Error::VendorLast,
+use ctap2::Error as E2;
+/// every CTAP2 status an authenticator can return
+const ERRORS2: [ctap2::Error; 55] = [
+    E2::Success, E2::InvalidCommand, E2::InvalidParameter, E2::InvalidLength, E2::InvalidSeq, E2::Timeout, E2::ChannelBusy,
+    E2::LockRequired, E2::InvalidChannel, E2::CborUnexpectedType, E2::InvalidCbor, E2::MissingParameter, E2::LimitExceeded,
+    E2::UnsupportedExtension, E2::FingerprintDatabaseFull, E2::LargeBlobStorageFull, E2::CredentialExcluded, E2::Processing,
+    E2::InvalidCredential, E2::UserActionPending, E2::OperationPending, E2::NoOperations, E2::UnsupportedAlgorithm,
+    E2::OperationDenied, E2::KeyStoreFull, E2::NotBusy, E2::NoOperationPending, E2::UnsupportedOption, E2::InvalidOption,
+    E2::KeepaliveCancel, E2::NoCredentials, E2::UserActionTimeout, E2::NotAllowed, E2::PinInvalid, E2::PinBlocked,
+    E2::PinAuthInvalid, E2::PinAuthBlocked, E2::PinNotSet, E2::PinRequired, E2::PinPolicyViolation, E2::PinTokenExpired,
+    E2::RequestTooLarge, E2::ActionTimeout, E2::UpRequired, E2::UvBlocked, E2::IntegrityFailure, E2::InvalidSubcommand,
+    E2::UvInvalid, E2::UnauthorizedPermission, E2::Other, E2::SpecLast, E2::ExtensionFirst, E2::ExtensionLast, E2::VendorFirst,
+    E2::VendorLast,
 ];
+
+/// every ISO 7816 status a CTAP1 handler can return: whatever any 16-bit status word parses to,
+/// plus the parametrised variants with all 256 parameter values
+pub fn all_ctap1_errors() -> Vec<ctap1::Error> {
+    let mut v: Vec<ctap1::Error> = Vec::new();
+    for sw in 0..=0xffffu32 {
+        let s = ctap1::Error::from(sw as u16);
+        if !v.contains(&s) {
+            v.push(s);
+        }
+    }
+    for p in 0..=255u8 {
+        for s in [
+            ctap1::Error::MoreAvailable(p),
+            ctap1::Error::WarningTriggering(p),
+            ctap1::Error::RemainingRetries(p),
+            ctap1::Error::ErrorTriggering(p),
+        ] {
+            if !v.contains(&s) {
+                v.push(s);
+            }
+        }
+    }
+    v
+}
 
 pub fn judge2(rep: &mut Rep, req: &ctap2::Request, tag: &str) {
     let Some((handler, arg, ok_resp)) = expected2(req) else {
@@ -119,7 +144,7 @@ fn short<T: std::fmt::Debug>(x: &T) -> String {
 }
 
 pub fn judge1(rep: &mut Rep, req: &ctap1::Request, tag: &str) {
-    let errors = [
+    judge1_with(rep, req, tag, &[
         None,
         Some(ctap1::Error::ConditionsOfUseNotSatisfied),
         Some(ctap1::Error::IncorrectDataParameter),
@@ -127,8 +152,11 @@ pub fn judge1(rep: &mut Rep, req: &ctap1::Request, tag: &str) {
         Some(ctap1::Error::ClassNotSupported),
         Some(ctap1::Error::InstructionNotSupportedOrInvalid),
         Some(ctap1::Error::UnspecifiedCheckingError),
-    ];
-    for (bi, fail) in errors.into_iter().enumerate() {
+    ]);
+}
+
+pub fn judge1_with(rep: &mut Rep, req: &ctap1::Request, tag: &str, errors: &[Option<ctap1::Error>]) {
+    for (bi, fail) in errors.iter().cloned().enumerate() {
         if rep.light && bi >= 2 {
             break;
         }
@@ -244,6 +272,26 @@ pub fn run(rep: &mut Rep) {
                 Err(_) => rep.count("request_not_decodable(judged under C01)", 1),
             }
             drop(decoded);
+        }
+    }
+    // CTAP1: the complete set of statuses a handler can return, each propagated unchanged
+    if rep.shard == 0 && rep.begin("ctap1/every-status") {
+        let all: Vec<Option<ctap1::Error>> = all_ctap1_errors().into_iter().map(Some).collect();
+        rep.count("ctap1_statuses_enumerated", all.len() as u64);
+        let ch = [0x11u8; 32];
+        let app = [0x22u8; 32];
+        let kh = [0x33u8; 40];
+        let reqs = [
+            ctap1::Request::Register(ctap1::register::Request { challenge: &ch, app_id: &app }),
+            ctap1::Request::Authenticate(ctap1::authenticate::Request {
+                control_byte: ctap1::ControlByte::EnforceUserPresenceAndSign,
+                challenge: &ch,
+                app_id: &app,
+                key_handle: &kh,
+            }),
+        ];
+        for r in &reqs {
+            judge1_with(rep, r, "every-status", &all);
         }
     }
     // CTAP1
